@@ -39,6 +39,39 @@ def abstract_text(code):
     return _INT.sub("N", code)
 
 
+def count_assert_nodes(graph):
+    """Number of distinct Assert applications reachable from the graph's outputs (None if the walk fails)."""
+    import einx._src.tracer as tracer
+    P = tracer.signature.python
+    seen, asserts = set(), set()
+
+    def rec(x):
+        if isinstance(x, (tuple, list)):
+            for a in x:
+                rec(a)
+        elif isinstance(x, dict):
+            for a in x.values():
+                rec(a)
+        elif isinstance(x, tracer.Graph):
+            if id(x) not in seen:
+                seen.add(id(x))
+                rec(x.output)
+        elif isinstance(x, tracer.Tracer) and x.origin is not None and id(x.origin) not in seen:
+            o = x.origin
+            seen.add(id(o))
+            if isinstance(o, P.Assert):
+                asserts.add(id(o))
+            for v in vars(o).values():
+                if isinstance(v, (tracer.Tracer, tracer.Graph, tuple, list, dict)):
+                    rec(v)
+
+    try:
+        rec(graph)
+    except Exception:  # noqa
+        return None
+    return len(asserts)
+
+
 def check_record(case, rec, value, args_after, out, backend):
     """All C04 monitors for one captured compilation."""
     import einx._src.tracer as tracer
@@ -60,6 +93,15 @@ def check_record(case, rec, value, args_after, out, backend):
     if not isinstance(rec.compiled_graph, tracer.Graph) or "def op(" not in text:
         out.violation({"kind": "text-defines-no-function", "graph_type": type(rec.compiled_graph).__name__}, {"case": cj, "text": text}, f"generated text defines no function: {text!r}")
         return
+    # every Assert node of the graph is an assert statement of the text
+    n_assert_nodes = count_assert_nodes(rec.compiled_graph)
+    n_assert_lines = sum(1 for l in text.splitlines() if l.strip().startswith("assert "))
+    if n_assert_nodes is not None:
+        if n_assert_nodes != n_assert_lines:
+            out.violation({"kind": "assert-nodes-differ-from-assert-statements"}, {"case": cj, "text": text, "graph_asserts": n_assert_nodes, "text_asserts": n_assert_lines}, f"the graph has {n_assert_nodes} Assert nodes, the text {n_assert_lines} assert statements")
+            return
+        if n_assert_nodes:
+            out.count("records_with_asserts")
     # (b) exec in an empty namespace + listed constants
     consts = re.findall(r"^# Constant (const\d+):", text, flags=re.M)
     used = set(re.findall(r"\bconst\d+\b", "\n".join(l for l in text.splitlines() if not l.lstrip().startswith("#"))))
@@ -142,6 +184,13 @@ def run(spec, out):
         """Some cases go through an adapter of a user function, so that the graph carries Constant nodes (fresh adapter = fresh cache)."""
         if case.family == "reduce" and case.op in ("sum", "max", "min", "prod") and "keepdims" not in case.call_kwargs():
             base = getattr(np, case.op)
+            if rng.random() < 0.5:
+                # a keyword-only float option: it becomes a literal of the generated text and must arrive bit-exact
+                def with_option(x, axis, *, vfscale, base=base):
+                    return base(x, axis=axis) * vfscale
+                ad = einx.numpy.adapt_numpylike_reduce(with_option)
+                val = rng.choice([0.1 + 0.2, 2.0 ** -40, 1e-13, 1 / 3, 1.0000000000000002, 123456.78901234567, rng.random()])
+                return lambda desc, *t, ad=ad, val=val, **kw: ad(desc, *t, vfscale=val, **kw)
             return einx.numpy.adapt_numpylike_reduce(lambda x, axis, base=base: base(x, axis=axis))
         if case.family == "elementwise" and len(case.inputs) == 2 and case.op in ("add", "subtract", "multiply", "maximum"):
             base = getattr(np, case.op)
@@ -155,6 +204,13 @@ def run(spec, out):
         if fn_adapted is not None:
             b = None
             out.count("adapter_cases")
+        elif case.family in ("elementwise", "dot") and len(case.tensors) >= 2 and rng.random() < 0.4:
+            # the last two tensors come from tensor factories: their run-time checks are Assert nodes of the graph and assert statements of the text
+            ts = list(case.tensors)
+            for j in (-1, -2):
+                ts[j] = (lambda shape, t=np.array(ts[j], copy=True): t)
+            case.tensors = ts
+            out.count("factory_cases")
         status, val, rec, args_after = capture(case, b, fn=fn_adapted)
         out.evaluation()
         out.count(f"family:{case.family}")
@@ -193,7 +249,7 @@ def run(spec, out):
 
 def finalize(agg, tier, seed):
     c = agg.counters
-    for k in ("records", "audit_exec_matches", "function_matches_text", "graph_true_matches", "compiled_equals_interpreted", "synthetic_checked", "records_with_constants", "earlier_function_unchanged", "synthetic_earlier_function_unchanged"):
+    for k in ("records", "audit_exec_matches", "function_matches_text", "graph_true_matches", "compiled_equals_interpreted", "synthetic_checked", "records_with_constants", "records_with_asserts", "earlier_function_unchanged", "synthetic_earlier_function_unchanged"):
         if c.get(k, 0) < 50:
             agg.inconclusive.append(f"monitor counter {k} = {c.get(k, 0)}")
     return {"node_kinds": {k[5:]: int(v) for k, v in c.items() if k.startswith("node:")}}
